@@ -58,12 +58,6 @@ package setec
 //@   ensures [C16 lookup.gate] (!old(has(s.active.m, name)) && !s.allowLookup) ==> (sec == nil && err != nil && net == old(net) && sameEntries(s))
 //@   ensures [C16 lookup.known-no-request] old(has(s.active.m, name)) ==> (sec != nil && err == nil && net == old(net) && sameEntries(s))
 //@   ensures [C12 lookup.inv] storeInv(s) && !s.active.Mutex && handlesKept(s)
-//@ func (*Store).snapshotActive(s) (m)
-//@   ensures true
-//@ func (*Store).poll(s, ctx, updates) (err)
-//@   ensures true
-//@ func (*Store).applyUpdates(s, updates) (err)
-//@   ensures true
 //@ func (*Store).initializeActive(s, ctx) (err)
 //@   ensures true
 //@ func NewStore(ctx, cfg) (s, err)
@@ -71,8 +65,6 @@ package setec
 //@ func (*Store).run(s, ctx, interval, done)
 //@   ensures true
 //@ func (*Store).Refresh(s, ctx) (err)
-//@   ensures true
-//@ func (*Store).Refresh$1() (v, err)
 //@   ensures true
 //@ func (*Store).lookupWatcher(s, ctx, name) (w, err)
 //@   ensures true
@@ -143,3 +135,59 @@ package setec
 //@   ensures [C09 fileclient.iff-unchanged] has(fc.db, name) ==> ((err == api.ErrValueNotChanged) == (fc.db[name].Version == oldVersion))
 //@   ensures [C09 fileclient.value] (has(fc.db, name) && fc.db[name].Version != oldVersion) ==> (sv == fc.db[name] && err == nil)
 //@   ensures [C09 fileclient.errors] err == nil || err == api.ErrNotFound || err == api.ErrValueNotChanged
+
+// ---- polling -------------------------------------------------------------------------------
+// a name may be marked expired only if it is undeclared, an expiry age is configured, and no handle exists
+//@ pred mayExpire(s *Store, n string) { has(s.active.m, n) && !s.active.m[n].Declared && s.expiryAge > 0 && !has(s.active.f, n) }
+//@ func (*Store).snapshotActive(s) (m)
+//@   requires storeInv(s) && !s.active.Mutex
+//@   ensures [C11,C19 snapshot.exact] m != nil && fresh(m) && (forall n string :: has(m, n) == has(s.active.m, n) && (has(m, n) ==> (m[n].version == s.active.m[n].Secret.Version && (m[n].expired ==> mayExpire(s, n)))))
+//@   ensures [C12 snapshot.inv] storeInv(s) && !s.active.Mutex && sameEntries(s) && handlesKept(s) && net == old(net) && cacheWrites == old(cacheWrites)
+//@   loop 0
+//@     invariant [state] storeInv(s) && s.active.Mutex && sameEntries(s) && handlesKept(s) && net == old(net) && cacheWrites == old(cacheWrites) && m != nil && fresh(m)
+//@     invariant [done] forall n string :: has(m, n) == visited(n) && (visited(n) ==> (has(s.active.m, n) && m[n].version == s.active.m[n].Secret.Version && (m[n].expired ==> mayExpire(s, n))))
+
+// srvCurrent(n, lo, hi, v): v was the service's active version of n at some request made in (lo, hi]
+//@ pred srvCurrent(n string, lo int, hi int, v api.SecretVersion) { exists t int :: lo < t && t <= hi && srvFound(n, t) && srvActiveAt(n, t) == v }
+//@ func (*Store).poll(s, ctx, updates) (err)
+//@   requires storeInv(s) && !s.active.Mutex && updates != nil && allocated(updates) && s.client != nil && ctx != nil && (forall n string :: !has(updates, n))
+//@   ensures [C12 poll.inv] storeInv(s) && !s.active.Mutex && sameEntries(s) && handlesKept(s) && cacheWrites == old(cacheWrites)
+//@   ensures [C11,C19 poll.domain] forall n string :: has(updates, n) ==> has(s.active.m, n)
+//@   ensures [C19 poll.marks-only-expirable] forall n string :: (has(updates, n) && updates[n] == nil) ==> mayExpire(s, n)
+//@   ensures [C11 poll.updates-served] forall n string :: (has(updates, n) && updates[n] != nil) ==> (allocated(updates[n]) && served(n, ref(updates[n])) &&
+//@        srvCurrent(n, old(net), net, updates[n].Version) && updates[n].Version != s.active.m[n].Secret.Version)
+//@   ensures [C11 poll.unchanged-are-current] err == nil ==> (forall n string :: (has(s.active.m, n) && !has(updates, n)) ==> srvCurrent(n, old(net), net, s.active.m[n].Secret.Version))
+//@   loop 0
+//@     invariant [state] storeInv(s) && !s.active.Mutex && sameEntries(s) && handlesKept(s) && cacheWrites == old(cacheWrites) && net >= old(net) && updates != nil && s.client != nil && ctx != nil
+//@     invariant [snapshot] forall n string :: has(call_snapshotActive, n) == has(s.active.m, n) && (has(s.active.m, n) ==> (call_snapshotActive[n].version == s.active.m[n].Secret.Version && (call_snapshotActive[n].expired ==> mayExpire(s, n))))
+//@     invariant [domain] forall n string :: has(updates, n) ==> (has(s.active.m, n) && visited(n))
+//@     invariant [expired] forall n string :: (has(updates, n) && updates[n] == nil) ==> mayExpire(s, n)
+//@     invariant [served] forall n string :: (has(updates, n) && updates[n] != nil) ==> (allocated(updates[n]) && served(n, ref(updates[n])) &&
+//@        srvCurrent(n, old(net), net, updates[n].Version) && updates[n].Version != s.active.m[n].Secret.Version)
+//@     invariant [errs] (forall j int :: (0 <= j && j < len(errs)) ==> errs[j] != nil) && len(errs) >= 0
+//@     invariant [current] len(errs) == 0 ==> (forall n string :: (visited(n) && !has(updates, n)) ==> srvCurrent(n, old(net), net, s.active.m[n].Secret.Version))
+
+//@ func (*Store).applyUpdates(s, updates) (err)
+//@   requires storeInv(s) && !s.active.Mutex && (forall n string :: has(updates, n) ==> has(s.active.m, n)) && (forall n string :: (has(updates, n) && updates[n] != nil) ==> allocated(updates[n]))
+//@   ensures [C12 apply.inv] storeInv(s) && !s.active.Mutex && handlesKept(s) && net == old(net)
+//@   ensures [C19 apply.drops-only-marked-unreferenced] forall n string :: (old(has(s.active.m, n)) && !has(s.active.m, n)) ==> (has(updates, n) && updates[n] == nil && !has(s.active.f, n))
+//@   ensures [C12,C19 apply.no-additions] forall n string :: has(s.active.m, n) ==> old(has(s.active.m, n))
+//@   ensures [C11 apply.installs] forall n string :: (has(updates, n) && updates[n] != nil) ==> (has(s.active.m, n) && s.active.m[n].Secret == updates[n])
+//@   ensures [C12 apply.others-kept] forall n string :: (has(s.active.m, n) && !(has(updates, n) && updates[n] != nil)) ==> s.active.m[n].Secret == old(s.active.m[n].Secret)
+//@   ensures [C13 apply.flush] (len(updates) > 0 && s.cache != nil) ==> cacheWrites == old(cacheWrites) + 1
+//@   ensures [C13 apply.flush-whole] (len(updates) > 0 && s.cache != nil && err == nil) ==> (forall n string :: cacheDocAt(s, n))
+//@   loop 0
+//@     invariant [state] storeInv(s) && s.active.Mutex && handlesKept(s) && net == old(net) && cacheWrites == old(cacheWrites)
+//@     invariant [drops] forall n string :: (old(has(s.active.m, n)) && !has(s.active.m, n)) ==> (visited(n) && has(updates, n) && updates[n] == nil && !has(s.active.f, n))
+//@     invariant [noadd] forall n string :: has(s.active.m, n) ==> old(has(s.active.m, n))
+//@     invariant [installed] forall n string :: (visited(n) && updates[n] != nil) ==> (has(s.active.m, n) && s.active.m[n].Secret == updates[n])
+//@     invariant [kept] forall n string :: (has(s.active.m, n) && !(visited(n) && updates[n] != nil)) ==> s.active.m[n].Secret == old(s.active.m[n].Secret)
+//@     invariant [pending] forall n string :: (has(updates, n) && !visited(n)) ==> has(s.active.m, n)
+
+//@ func (*Store).Refresh$1() (v, err)
+//@   requires storeInv(s) && !s.active.Mutex && s.client != nil && ctx != nil
+//@   ensures [C12 refresh.inv] storeInv(s) && !s.active.Mutex && handlesKept(s)
+//@   ensures [C11 refresh.fresh] err == nil ==> (forall n string :: has(s.active.m, n) ==> srvCurrent(n, old(net), net, s.active.m[n].Secret.Version))
+//@   ensures [C11,C12 refresh.values-served] forall n string :: has(s.active.m, n) ==> (s.active.m[n].Secret == old(s.active.m[n].Secret) || served(n, ref(s.active.m[n].Secret)))
+//@   ensures [C11 refresh.poll-failure-keeps-old] (err != nil && cacheWrites == old(cacheWrites)) ==> sameEntries(s)
+//@   ensures [C19 refresh.drops] forall n string :: (old(has(s.active.m, n)) && !has(s.active.m, n)) ==> (old(mayExpire(s, n)) && !has(s.active.f, n))
